@@ -133,13 +133,3 @@ Proof.
   rewrite (encode_signed_spec _ _ Hf Hr Hz).
   destruct (Z.gtb_spec (Z.of_N raw) 255); [lia | reflexivity].
 Qed.
-
-(* the code before the repair F17 was not an inverse: M = 2, B = 3, K1 = K2 = 0,
-   unsigned raw reading 10 -> value 23 -> back to 8 *)
-Lemma inverse_orig_refuted :
-  exists s raw, s_m s <> 0 /\ N.land (s_lin s) 0x7f = 0%N /\ (s_fmt s < 3)%N /\ (raw < 256)%N /\
-    ~ (s_fmt s = 1%N /\ raw = 255%N) /\
-    convert_sensor_value_to_raw_orig s (linear_Q s (raw_signed (s_fmt s) raw)) <> Ok (Z.of_N raw).
-Proof.
-  exists (mkSensor 0 0 2 3 0 0), 10%N. repeat split; try (vm_compute; congruence); try lia.
-Qed.
